@@ -214,6 +214,11 @@ def WFBoost (b : BoostLit) : Prop :=
 def boostOpd (o : Opd) (b : BoostLit) : Opd :=
   ⟨o.text ++ '^' :: b.text, applyBoost o.leaf (some b.val), o.cost⟩
 
+/-- `name:( … )`: a parenthesised operand list with a default field -/
+def fieldGroupOpd (f : Str) (lead : Nat) (occ : Option Occur) (o : Opd) (more : List PItem) (k : Nat) : Opd :=
+  ⟨f ++ ':' :: '(' :: printList lead occ o more k [')'], setDefaultField f (listTree occ o more),
+    o.cost + needRest more + 3⟩
+
 /-- `NOT x` (`k + 1` blanks after the keyword) as an operand -/
 def notOpd (k : Nat) (o : Opd) : Opd :=
   ⟨'N' :: 'O' :: 'T' :: ' ' :: (spaces k ++ o.text), o.leaf.unary .mustNot, o.cost + 1⟩
